@@ -75,3 +75,10 @@ func ThreadID() int              { return 0 }
 
 // IteBool is a non-forking boolean if-then-else.
 func IteBool(c, a, b bool) bool { return a }
+
+// Hash32 / BytesOf32 convert between []byte and [32]byte views of one algebra term (no length check).
+func Hash32(b []byte) [32]byte    { return [32]byte{} }
+func BytesOf32(h [32]byte) []byte { return nil }
+
+// SQLKind classifies a constant SQL statement text (see sqlmodel.go).
+func SQLKind(query string) int { return 0 }
